@@ -197,6 +197,19 @@ impl SubCheck for Sub {
                     LargestOpt::Unit(u) => Some(unit(u)),
                 };
                 let st = diff_settings(lopt, c.smallest.map(unit), Some(c.inc), Some(mode(c.mode)));
+                // with a time largest unit the result is the exact elapsed time whatever zone the argument is in: every
+                // third such case hands over the same instant in another time zone
+                let other = if largest.is_time() && c.t2.rem_euclid(3) == 0 {
+                    let foreign = temporal_rs::TimeZone::try_from_identifier_str("+05:45").expect("offset zone");
+                    if foreign != tz {
+                        o = o.class("diff:time-largest:argument-in-another-zone");
+                        ZonedDateTime::try_new(c.t2, iso(), foreign).expect("same instant, another zone")
+                    } else {
+                        other
+                    }
+                } else {
+                    other
+                };
                 let got = if since { zdt.since_with_provider(&other, st, &prov) } else { zdt.until_with_provider(&other, st, &prov) };
                 if o.unjudged {
                     return o;
